@@ -51,9 +51,9 @@ ServerIdCases ==
                                  ciphers |-> <<ListedSeq[q] % 65536>>, comp |-> <<0>>, ext |-> None]]
 (* the lookup is per element: every list of length <= 4 over {two listed ids, a GREASE id, an unlisted id} - repeats, *)
 (* alternations and unlisted ids between listed ones                                                                  *)
-PatIds == <<47, 4865, 2570, 65535>>
+PatIds == <<47, 4865, 2570, 65535, 0>>      \* two listed ids, GREASE, unlisted, and id 0 (listed: TLS_NULL_WITH_NULL_NULL - also every integer type's default)
 Thorough == IOEnv.VERIF_TIER = "thorough"
-PatIdx == SetToSeq(UNION {[1..n -> 1..4] : n \in 1..(IF Thorough THEN 6 ELSE 4)})
+PatIdx == SetToSeq(UNION {[1..n -> 1..5] : n \in 1..(IF Thorough THEN 6 ELSE 4)})
 PatternCases ==
   [q \in 1..Len(PatIdx) |->
     [kind |-> <<"new_client_hello", "parsed_client_hello", "parsed_dtls_client_hello">>[(q % 3) + 1],
@@ -74,7 +74,15 @@ StoredCases ==
       [kind |-> <<"new_server_hello", "parsed_server_hello", "new_client_hello", "parsed_client_hello", "parsed_dtls_client_hello", "new_server_hello">>[q],
        ver |-> <<771, 770, 769, 771, 65277, 65277>>[q], random |-> Rand(2, 32), sid |-> IF q \in {1, 3, 6} THEN LongSids[((x + q) % 4) + 1] ELSE Sids[(x % 3) + 1],
        ciphers |-> IF q \in {1, 2, 6} THEN <<47>> ELSE <<47, 4865>>, comp |-> <<0>>, ext |-> MeaningExts[x]]]])
-ASSUME TLCSet(1, NewCases \o ParsedCases \o AllIdCases \o ServerIdCases \o PatternCases \o MagicCases \o StoredCases)
+(* DTLS ClientHello values built directly (random of any length: the accessors are total) *)
+DtlsNewCases ==
+  Concat([w \in 1..Len(Words) |->
+    [l \in 1..Len(Lens) |->
+      [kind |-> "new_dtls_client_hello", ver |-> 65277, random |-> Rand(w, Lens[l]), sid |-> Sids[((w + l) % 3) + 1],
+       ciphers |-> CiphLists[((w + l) % 4) + 1], comp |-> Comps[((w + l) % 3) + 1], ext |-> Exts[((w + l) % 3) + 1]]]])
+  \o [k \in 1..6 |-> [kind |-> "new_dtls_client_hello", ver |-> 65279, random |-> <<<<156>>, <<156, 156>>, <<1, 2, 3>>, <<0, 0, 1>>, <<255>>, <<128, 0, 0>>>>[k],
+                       sid |-> None, ciphers |-> <<47>>, comp |-> <<0>>, ext |-> None]]
+ASSUME TLCSet(1, NewCases \o ParsedCases \o AllIdCases \o ServerIdCases \o PatternCases \o MagicCases \o StoredCases \o DtlsNewCases)
 Cases == TLCGet(1)
 N == Len(Cases)
 
